@@ -1241,6 +1241,25 @@ Proof.
   unfold tail. rewrite loop_eof by exact Hs. reflexivity.
 Qed.
 
+(* a nested substream is inert: the sheet reads exactly as it does without it, wherever it stands
+   among the items and whatever records it holds (cell records at positions of the sheet's own
+   cells, FORMULA, STRING, MERGECELLS, DIMENSIONS, further BOF … EOF pairs, CONTINUE records) *)
+Theorem nested_substream_inert : forall before bof recs after trailer,
+  wf_layout (mkLayout (before ++ ISub bof recs :: after) trailer) = true ->
+  wf_layout (mkLayout (before ++ after) trailer) = true /\
+  sheet_cells fdiv100 decode16 en (encode_sheet (mkLayout (before ++ ISub bof recs :: after) trailer)) =
+  sheet_cells fdiv100 decode16 en (encode_sheet (mkLayout (before ++ after) trailer)).
+Proof.
+  intros before bof recs after trailer Hwf.
+  assert (Hwf' : wf_layout (mkLayout (before ++ after) trailer) = true).
+  { unfold wf_layout in *. cbn [l_items l_trailer] in *. rewrite forallb_app in *. cbn [forallb] in Hwf.
+    apply andb_true_iff in Hwf as [Hi Ht]. apply andb_true_iff in Hi as [H1 H2].
+    apply andb_true_iff in H2 as [_ H2]. rewrite H1, H2, Ht. reflexivity. }
+  split; [exact Hwf'|].
+  rewrite !sheet_cells_encode by assumption. unfold logical, layout_fmls. cbn [l_items].
+  rewrite !flat_map_app. reflexivity.
+Qed.
+
 End Biff.
 
 (* ---------- positions of a legal layout ---------- *)
